@@ -35,7 +35,10 @@ else:
     _tag = re.sub(r"[^A-Za-z0-9]+", "_", REPO).strip("_")
     WORKALT = os.path.join(WORK, "alt", _tag)
     COQ = os.path.join(WORKALT, "coq")
-    TARGET = os.path.join(WORKALT, "target")
+    # one cargo target dir shared by ALL alternative trees (a copy per tree costs ~10 GB each);
+    # cargo keys artifacts by package path, so trees do not clash; the produced binaries are
+    # copied to WORKALT/bin right after the build because the next tree's build overwrites them
+    TARGET = os.path.join(WORK, "alt-target")
     EVID = os.path.join(WORKALT, "evidence")
     REPLAYS = os.path.join(WORKALT, "replays")
     LOCKS = WORKALT
@@ -72,8 +75,10 @@ def ensure_dirs():
         # copy of the Coq tree (sources + compiled files, timestamps kept so make rebuilds nothing)
         subprocess.run(["rsync", "-a", os.path.join(VERIF, "coq") + "/", COQ + "/"], check=True)
         # seed the cargo target dir with the registry crates already compiled for /repo
-        if not os.path.exists(TARGET) and os.path.exists(os.path.join(WORK, "target")):
-            subprocess.run(["cp", "-a", os.path.join(WORK, "target"), TARGET], check=True)
+        with FileLock("cargo"):
+            if not os.path.exists(TARGET) and os.path.exists(os.path.join(WORK, "target")):
+                subprocess.run(["cp", "-a", os.path.join(WORK, "target"), TARGET + ".tmp"], check=False)
+                os.rename(TARGET + ".tmp", TARGET)
 
 
 def sh(cmd, timeout=None, cwd=None, env=None, inp=None):
@@ -97,7 +102,8 @@ def sh(cmd, timeout=None, cwd=None, env=None, inp=None):
 class FileLock:
     def __init__(self, name):
         ensure_dirs()
-        self.path = os.path.join(LOCKS, name + ".lock")
+        self.path = os.path.join(WORK if (ALT and name == "cargo") else LOCKS,
+                                 ("alt-" if (ALT and name == "cargo") else "") + name + ".lock")
 
     def __enter__(self):
         self.f = open(self.path, "w")
@@ -354,6 +360,19 @@ def cstr(codepoints):
 
 # ------------------------------------------------------------------------------------ harness
 
+def _keep_binary(path, release):
+    """alternative trees share one target dir: copy the fresh binary aside (caller holds the cargo lock)"""
+    if not ALT or not os.path.exists(path):
+        return path
+    d = os.path.join(WORKALT, "bin", "release" if release else "debug")
+    os.makedirs(d, exist_ok=True)
+    dst = os.path.join(d, os.path.basename(path))
+    tmp = dst + ".tmp%d" % os.getpid()
+    shutil.copy2(path, tmp)
+    os.replace(tmp, dst)
+    return dst
+
+
 def harness_dir(pkg):
     """package vh-foo lives in harness/foo (a standalone cargo workspace of its own).  For an
     alternative tree (VERIF_REPO) the package is copied with its /repo paths rewritten."""
@@ -402,7 +421,8 @@ def harness_build(pkg, release=False, features=None, timeout=3000, extra_cfg=Tru
         if rc != 0 and ("lock file" in e or "Cargo.lock" in e) and os.path.exists(lock_src):
             shutil.copy(lock_src, lock_dst)
             rc, o, e = sh(cmd, cwd=d, env=env, timeout=timeout)
-    binp = os.path.join(TARGET, "release" if release else "debug", bin_name or pkg)
+        binp = os.path.join(TARGET, "release" if release else "debug", bin_name or pkg)
+        binp = _keep_binary(binp, release) if rc == 0 else binp
     return rc == 0, binp, o + e
 
 
@@ -418,8 +438,9 @@ def cli_build(release=False, timeout=3600, bins=("veryl",)):
             cmd.append("--release")
         env = {"CARGO_TARGET_DIR": TARGET, "CARGO_NET_OFFLINE": "true", "RUSTFLAGS": GUARD_CFG}
         rc, o, e = sh(cmd, cwd=REPO, env=env, timeout=timeout)
-    d = os.path.join(TARGET, "release" if release else "debug")
-    return rc == 0, {b: os.path.join(d, b) for b in bins}, o + e
+        d = os.path.join(TARGET, "release" if release else "debug")
+        paths = {b: (_keep_binary(os.path.join(d, b), release) if rc == 0 else os.path.join(d, b)) for b in bins}
+    return rc == 0, paths, o + e
 
 
 def scratch_dir(tag):
